@@ -4,10 +4,10 @@ package main
 // Everything here is a forward may-analysis over blocks: no path is enumerated.
 
 import (
-	"strings"
-	"go/token"
 	"fmt"
+	"go/token"
 	"go/types"
+	"strings"
 
 	"golang.org/x/tools/go/ssa"
 )
